@@ -30,6 +30,7 @@ func checkC10(c *Ctx, r *Report) {
 	c10RootDispatch(c, r, "C10.d")
 	c10UnionBraceLayout(c, r, "C10.d")
 	c10CharLiteralExtent(c, r, "C10.d")
+	c10BlockCommentEnd(c, r, "C10.d")
 	c10TokenStartDiscipline(c, r, "C10.d")
 	c10SectionExtents(c, r)
 	c10ActionExtent(c, r)
@@ -1043,9 +1044,9 @@ func c10NothingDropped(c *Ctx, r *Report, clause string) {
 		{"Parser", "Walker", "BuildLALR1", "", "InsertNewRules", 2, []string{"($ok)"}, "rule 0 and every alternative of the file are handed to the grammar"},
 		{"Parser", "RuleVistor", "Process", "rules", "", 1, []string{"($ok)"}, "every alternative the parser read becomes a rule"},
 		{"Parser", "RuleVistor", "Process", "RighPart", "", 1, []string{"($ok)", "*.ElemType "}, "every symbol element of an alternative becomes a right-hand symbol"},
-		{"Parser", "parser", "parseTokendef", "IdentifyList", "", 2, []string{"*.current.Kind "}, "every name and every literal of a %token line is recorded with the line's value tag, declared before or not"},
-		{"Parser", "parser", "parseTypeList", "TypedefList", "", 1, []string{"*.current.Kind "}, "every name of a %type line is recorded with the line's value tag"},
-		{"Parser", "parser", "parsePrecList", "res", "", 1, []string{"*.current.Kind "}, "every symbol of a precedence line is recorded with the line's level"},
+		{"Parser", "parser", "parseTokendef", "IdentifyList", "", 1, []string{"*.current.Kind "}, "every name and every literal of a %token line is recorded with the line's value tag, declared before or not"},
+		{"Parser", "parser", "parseTypeList", "<returned>", "", 1, []string{"*.current.Kind "}, "every name of a %type line is recorded with the line's value tag"},
+		{"Parser", "parser", "parsePrecList", "<returned>", "", 1, []string{"*.current.Kind "}, "every symbol of a precedence line is recorded with the line's level"},
 	}
 	for _, s := range sites {
 		f := c.need(r, clause, s.dir, s.recv, s.fn)
@@ -1059,10 +1060,48 @@ func c10NothingDropped(c *Ctx, r *Report, clause string) {
 		}
 		key := f.Name + "/" + name + "-for-every-element"
 		var targets []ast.Node
+		// "<returned>": the list is the local the function returns, whatever it is called
+		returned := map[types.Object]bool{}
+		if s.field == "<returned>" {
+			name = "returned-list"
+			key = f.Name + "/" + name + "-for-every-element"
+			ast.Inspect(f.Decl.Body, func(n ast.Node) bool {
+				switch x := n.(type) {
+				case *ast.FuncLit:
+					return false
+				case *ast.ReturnStmt:
+					for _, e := range x.Results {
+						if o, isVar := identObj(info, e).(*types.Var); isVar && o.Parent() != o.Pkg().Scope() {
+							returned[o] = true
+						}
+					}
+				}
+				return true
+			})
+			if f.Decl.Type.Results != nil {
+				for _, fl := range f.Decl.Type.Results.List {
+					for _, nm := range fl.Names {
+						if o := info.Defs[nm]; o != nil {
+							returned[o] = true
+						}
+					}
+				}
+			}
+		}
 		ast.Inspect(f.Decl.Body, func(n ast.Node) bool {
 			switch x := n.(type) {
 			case *ast.AssignStmt:
 				if s.field == "" || len(x.Lhs) != 1 || len(x.Rhs) != 1 {
+					return true
+				}
+				if s.field == "<returned>" {
+					o := identObj(info, x.Lhs[0])
+					if o == nil || !returned[o] {
+						return true
+					}
+					if call, ok := unparen(x.Rhs[0]).(*ast.CallExpr); ok && builtinName(info, call) == "append" && len(call.Args) >= 2 && identObj(info, call.Args[0]) == o {
+						targets = append(targets, x)
+					}
 					return true
 				}
 				var fv types.Object
